@@ -67,29 +67,66 @@ PROPS = {
         "assumptions": ["the transport honours the AsyncRead contract (fills at most the offered capacity)"],
     },
     "C01": {
-        "lean": ["Properties.C01V3"],
-        "level_text": "Machine-checked Lean 4 theorems for ALL valid v3.1/v3.1.1 packets (all 14 types, unbounded field sizes and list lengths, every code from the regenerated code tables) and arbitrary trailing bytes: encode succeeds without error or panic in either build profile and the async, blocking and poll (exact total, raw body) front-ends return the original packet; wire numbers of enums invert (the obligation F1 broke). The v5 part (generic property layer + 15 packet types) is modelled, tied by correspondence and by the model-level round-trip check of the `valid` stream; its theorems are being proved (v5 currently: tied + tested, not yet theorem).",
+        "lean": ["Properties.C01V3", "Properties.C01V5"],
+        "level_text": "Machine-checked Lean 4 theorems for ALL valid packets of BOTH families (14 v3 + 15 v5 types, unbounded field sizes and list lengths, every code from the regenerated code tables, every subset/order-independent property set through the generic property layer incl. user-property lists of any length, the PUBACK-family / DISCONNECT / AUTH short forms) and arbitrary trailing bytes: encode succeeds without error or panic in either build profile and the async, blocking and poll (exact total, raw body) front-ends return the original packet; wire numbers of every enum invert (the obligation F1 broke); the generic property-layer round trip is proved once for all nine identifier lists. Valid domain = Packet.valid (decidable) + property sets confined to their struct + encode_len succeeds. Model tied to the code by correspondence (enc/dec/deca/poll/hdr/valid ops) and C05 lifts the poll statement to every schedule.",
         "streams": ["v3enc", "v3dec", "v5enc", "v5dec", "valid"],
         "rule": "enc/dec/deca/poll/hdr ops on type-directed generated packets of both families (every optional field and property subset shape, every code, boundary lengths) and their mutations; `valid` ops check the model's Valid predicate and model round trip on every generated packet; distinct = distinct op lines",
-        "explanation": "v3: theorem; v5: correspondence + oracle until C01V5 lands",
+        "explanation": "theorems for both families",
     },
     "C02": {
-        "lean": ["Properties.C02V3"],
-        "level_text": "Machine-checked Lean 4 theorems for ALL v3 packets (valid or not): every encodable part writes exactly what it reports; encode never panics and is independent of debug assertions; on success the output is control byte ++ minimal remaining length ++ body with remaining length = bytes following = encode_len - header; oversize is refused with InvalidVarByteInt by both encode and encode_len, and that is the only encode error. Width thresholds come from tables regenerated from the running code (C15). v5: modelled (incl. the expect() panic sites of the property-length macros), tied by correspondence in release AND debug builds and by the oracle (incl. oversize property sections, F6); theorems in progress.",
+        "lean": ["Properties.C02V3", "Properties.C02V5"],
+        "level_text": "Machine-checked Lean 4 theorems: v3 — for ALL packets (valid or not) every encodable part writes exactly what it reports, encode never panics and is independent of debug assertions, output = control byte ++ minimal remaining length ++ body with remaining length = bytes following, oversize refused with InvalidVarByteInt by encode and encode_len alike; v5 — every property set writes what it reports whenever its section fits a variable byte integer, for ALL packets a successful encode is profile-independent, has the size encode_len reports and the header/body shape (so the debug_assert in encode_packet cannot fire), valid packets never panic, oversize (incl. oversize property sections after fix F6) is refused by both entry points, and that is the only encode error. Width thresholds come from tables regenerated from the running code (C15). Tied by correspondence in release AND debug builds (enc ops print every separately encodable part) and by the oracle (width boundaries incl. 268,435,455/268,435,456, 275 MB declared property sections).",
         "streams": ["v3enc", "v5enc"],
         "debug_streams": ["v3enc", "v5enc"],
         "oracle_debug": True,
         "rule": "enc ops print bytes, encode_len, body bytes/len and every separately encodable part (protocol, will, property sets) for generated packets incl. just-outside-domain values; same ops through the debug-assertions build; oracle adds width-boundary sizes and 275 MB declared property sections",
-        "explanation": "v3: theorem; v5: correspondence + oracle until C02V5 lands",
+        "explanation": "theorems for both families",
     },
     "C03": {
-        "lean": ["Properties.C03", "Properties.C03V3"],
-        "level_text": "Machine-checked Lean 4 theorems for ALL byte strings (v3): no decoder entry point (async, blocking, header, poll under any schedule) reaches any of the Rust panic sites rendered in the model (expect/unreachable!/debug_assert/unchecked arithmetic/indexing), termination holds by construction (total functions; loops are well-founded recursions; poll fuel proved sufficient), the poll machine never offers a zero-capacity buffer and calls block_decode only on a completely filled buffer. PARTIAL by nature: memory-level safety of the two `unsafe` idioms cannot be exhibited by a model; their logical preconditions are proved and the real code is exercised under catch_unwind in release and debug builds on exhaustive <=2-byte strings, every 2-byte header with short bodies, and structure-aware corruptions. v5: modelled and tied; theorems in progress.",
+        "lean": ["Properties.C03", "Properties.C03V3", "Properties.C03V5"],
+        "level_text": "Machine-checked Lean 4 theorems for ALL byte strings and BOTH families: no decoder entry point (async, blocking, header, poll under any schedule) reaches any of the Rust panic sites rendered in the model (expect/unreachable!/debug_assert/unchecked arithmetic/indexing), termination holds by construction (total functions; loops are well-founded recursions; poll fuel proved sufficient), the poll machine never offers a zero-capacity buffer and calls block_decode only on a completely filled buffer. PARTIAL by nature: memory-level safety of the two `unsafe` idioms cannot be exhibited by a model; their logical preconditions are proved and the real code is exercised under catch_unwind in release and debug builds on exhaustive <=2-byte strings, every 2-byte header with short bodies, and structure-aware corruptions..",
         "streams": ["v3short", "v5short", "v3dec", "v5dec"],
         "debug_streams": ["v3short", "v5short"],
         "oracle_debug": True,
         "rule": "all strings of length <= 2 through dec/poll(/hdr), every first byte x 8-10 short bodies x 3 declared lengths, generated packets with 3-4 structure-aware mutations each; distinct = distinct op lines",
         "explanation": "no-panic theorems over the model; unsafe blocks observed, not proved",
         "assumptions": ["allocation of a declared (<= 256 MB) body buffer succeeds", "memory-level soundness of from_utf8_unchecked-after-validation and of the MaybeUninit body buffer is outside the model (logical preconditions proved)"],
+    },
+    "C06": {
+        "lean": ["Properties.C06V3"],
+        "level_text": "Machine-checked Lean 4 theorems for ALL byte strings (v3): whenever the strict poll decoder (as a function of the stream; C05 covers every schedule) accepts, the async and blocking decoders return the same packet having consumed exactly the reported total; whenever it rejects a complete frame with an error other than a remaining-length mismatch, they return that same error; blocking = async with EOF mapped to incomplete for packets and bare headers (incl. the invariant that no reader fabricates an I/O error of its own). Proof: parser algebra (every reader extends) + equality of the three dispatch tables. v5: modelled and tied by correspondence (dec/deca/poll/hdr on identical bytes) and by the oracle; theorems in progress.",
+        "streams": ["v3dec", "v5dec", "v3short", "v5short"],
+        "rule": "dec, deca, poll and hdr ops on identical byte strings: valid encodings, encodings with trailing bytes, 3-4 structure-aware mutations each, all <=2-byte strings, short bodies under every first byte; oracle tallies accepted-by-both / lenient-only / incomplete / rejected",
+        "explanation": "v3: theorem; v5: correspondence + oracle",
+    },
+    "C07": {
+        "lean": ["Properties.C07V3"],
+        "level_text": "Machine-checked Lean 4 theorems for ALL valid v3 packets and ALL cut positions: every strict prefix of the encoding is Ok(None) for the blocking decoder and an is_eof() error for the async decoder and for the poll decoder under EVERY delivery schedule, never another error or a packet; the encoding followed by arbitrary bytes decodes to the same packet on all three front-ends (poll: any schedule, any terminal event). From C01 + the prefix lemma of the parser algebra + C05. v5: tied by correspondence (v5fault stream: cuts with EOF) and oracle (every cut); theorems in progress.",
+        "streams": ["v3fault", "v5fault"],
+        "rule": "fault streams: for generated packets and mutations, a random cut with EOF/error terminals on deca/poll/dec; oracle: every cut position of every generated packet (all positions up to 400 bytes), random/adversarial suffixes",
+        "explanation": "v3: theorem; v5: correspondence + oracle",
+    },
+    "C08": {
+        "lean": ["Properties.C08V3"],
+        "level_text": "Machine-checked Lean 4 theorem for ALL finite sequences of valid v3 packets: decoding the concatenation one packet at a time (async/blocking advancing by the bytes consumed; poll advancing by the reported total) returns exactly the sequence, each packet consuming exactly its own encoding, byte counts summing to the stream length, then end-of-input at a clean boundary. Induction on the sequence with C01 in its trailing-bytes form. v5: tied by the oracle (sequences of 1..20 mixed packets through one reader with random chunking); theorem in progress.",
+        "streams": ["v3dec", "v5dec"],
+        "rule": "oracle: 1..20 generated packets back-to-back through blocking (advance by encode_len), async (reader position) and poll (reported total, random chunking); correspondence: encodings followed by another packet's bytes",
+        "explanation": "v3: theorem; v5: oracle",
+    },
+    "C14": {
+        "lean": ["Properties.C14V3", "Properties.C14W"],
+        "level_text": "Machine-checked Lean 4 theorems (read side, v3): for ALL valid packets, ALL positions inside the encoding and ALL error kinds, a transport error there makes the async decoder and the poll decoder under EVERY schedule return IoError of that kind, EOF there yields an is_eof() error, a fault after the packet is not seen; error conversions preserve the I/O kind and map every protocol error to InvalidData, ErrorV5 wraps the same. MODELLED, NOT VERIFIED: tokio's read_exact/write_all (documented behaviour recorded as the model of `take`/`writeAll`). Write side (both families, theorems): whatever the sink does the bytes it received are a prefix of the encoding; a write error or zero-length write reached after j < len accepted bytes (any j, any way of accepting them) surfaces as IoError of exactly that kind (WriteZero for a 0-byte write) with exactly the first j bytes delivered; success implies complete delivery; the streaming encoder (one write_all per piece, any piece boundaries) leaves a prefix of the concatenation. v5 read side: modelled and tied by correspondence/oracle; theorems in progress.",
+        "streams": ["v3fault", "v5fault", "enca"],
+        "rule": "fault streams: random cut of generated/mutated encodings with one of 6 error kinds or EOF through deca and poll (random schedules); enca: encode_async into sinks with partial accepts, Pendings and a terminal zero-length write or error; oracle: every cut of every generated packet",
+        "explanation": "read side v3: theorem; write side and v5: correspondence + oracle",
+        "assumptions": ["read_exact: fills the buffer across partial reads, UnexpectedEof on a 0-byte read, propagates errors and Pending (tokio)", "write_all: retries until all bytes are accepted, WriteZero on a 0-byte write, propagates errors and Pending (tokio/std)"],
+    },
+    "C09": {
+        "lean": ["Properties.C09"],
+        "level_text": "Machine-checked Lean 4 theorems (both families): under EVERY sink behaviour made of partial accepts (any sizes >= 1) and Pendings, write_all delivers exactly the buffer in order and succeeds, with no more Pendings than the sink produced; the async encoder therefore writes exactly the bytes of the blocking encoder (and fails with its error otherwise); the streaming encoder delivers exactly the concatenation of its pieces for every piece partition; the VarBytes container exposes exactly header ++ body for the Fixed2/Fixed4 fast paths as for dynamic ones (v3), and every v5 packet encoding is control byte ++ minimal remaining length ++ what the body encoder writes. Determinism of repeated calls is definitional in the pure model and observed on the implementation (oracle: encode twice). MODELLED, NOT VERIFIED: the write_all loops of tokio/std (their documented behaviour is the model IO.writeAll, tied by the enca ops).",
+        "streams": ["enca", "v3enc", "v5enc"],
+        "rule": "enca ops: encode_async of generated packets of both families into scripted sinks (accept 1..9 bytes, whole buffer, Pending, terminal zero/err); enc ops print the blocking encoder's bytes and the body encoder's bytes; oracle adds 1-byte sinks, random 1..7 with Pendings, chunking io::Write sink for the body",
+        "explanation": "theorems over the IO model; write_all itself is an assumption",
+        "assumptions": ["write_all: retries until all bytes are accepted, WriteZero on a 0-byte write, propagates errors and Pending (tokio/std)", "Encodable::encode issues one write_all per field piece (piece boundaries are universally quantified in the theorem)"],
     },
 }
